@@ -5,7 +5,9 @@
 (* inside a real block, with the increment of the rewards of every miner   *)
 (* and sharder stake pool read back from the MPT; every `ValidateBlock`    *)
 (* line is the verdict of the real miner.Chain.ValidateTransactions on the *)
-(* block.  The invariants evaluate the obligations of MinerFeesOps.tla     *)
+(* block; a `FeeTxn` line is one fee-carrying transaction of the block     *)
+(* (kind, outcome, exempt function or not, fee) - informative, skipped.    *)
+(* The invariants evaluate the obligations of MinerFeesOps.tla             *)
 (* (the operators TLC checks MinerFees.tla against).                       *)
 (***************************************************************************)
 EXTENDS TraceLib, MinerFeesOps
@@ -34,6 +36,11 @@ MInc == M(ev.minc)   SInc == M(ev.sinc)
 
 \* harness sanity: the recorder's count of accepted payments per block agrees with the trace
 HarnessPaidCount == (ev.ev = "ValidateBlock") => TRUE
+\* harness sanity: "the block's fees" (the sum of the Fee fields of the block's transactions, `fees`) is what
+\* Chain.updateState really moved to the miner contract's address since the block was begun (`collected`):
+\* the fee of EVERY transaction counts - sends, data, succeeding and failing contract calls, and calls of
+\* fee-exempt functions that offer a fee all the same (`FeeTxn` lines)
+HarnessFeesCollected == IsFees => ev.collected = ev.fees
 
 \* accepted only from the block's generator and only for the block's round; a rejected call pays nothing
 C22_OnlyGenerator ==
